@@ -912,6 +912,17 @@ func (m *Monitors) mPut(h *H, a []string, r Resp) {
 	ms.mts[mt] = true
 	rs.pushed[string(body)] = true
 	if isTag {
+		if was, ok := rs.tags[ref]; ok && was != real {
+			// the tag moves away: for a twin of a response that is the removal of its last tag (see mDel)
+			if pm, ok := rs.mans[was]; ok && strings.HasPrefix(h.tk.contentName(pm.raw), "R(") {
+				pm.tagged = false
+				for t, d := range rs.tags {
+					if d == was && t != ref {
+						pm.tagged = true
+					}
+				}
+			}
+		}
 		rs.tags[ref] = real
 	}
 	// referrers bookkeeping
@@ -1167,6 +1178,14 @@ func (m *Monitors) refs(h *H, a []string, r Resp) {
 		// lists is judged when the chain is walked from a fresh request (below), not against the present state
 		if !exp[g] && kv(a, "cache") == "" {
 			m.flag(h, "C07.refs-exact", fmt.Sprintf("referrers of %s lists %s which is not a present manifest with that subject%s", sTok, g, map[bool]string{true: " and filter", false: ""}[filter != ""]))
+		}
+	}
+	// the filter travels with the Link: the next page of a filtered listing is a page of the filtered list
+	if filter != "" && r.Link != "" {
+		if i := strings.Index(r.header.Get("Link"), ">"); i > 1 {
+			if lu, err := url.Parse(r.header.Get("Link")[1:i]); err == nil && lu.Query().Get("artifactType") != mtRealOf(filter) {
+				m.flag(h, "C07.filter", fmt.Sprintf("the Link of a listing filtered by %s carries artifactType=%q", filter, lu.Query().Get("artifactType")))
+			}
 		}
 	}
 	paged := r.Link != "" || kv(a, "page") != "" || kv(a, "cache") != ""
@@ -1845,6 +1864,13 @@ func (m *Monitors) afterGC(h *H, repo string) {
 		}
 	}
 	// C06: a second pass changes nothing (no forced reload here: nothing happened since the first pass)
+	// What no top-level entry leads to after the first pass can only be a memory-only child record whose parent is gone
+	// (F32, judged by C10): the directory store drops such records whenever it reloads index.json, and the moment of a
+	// reload depends on the clock (a finished session's cleanup goroutine moves timeMod) - not a change made by the pass
+	var rootedAfter map[string]bool
+	if m.routable(h, repo) {
+		rootedAfter = m.rooted(h, repo)
+	}
 	_ = h.srv.VerifGC(repo)
 	again := m.gcSnapshot(h, repo)
 	for d, was := range post.present {
@@ -1854,6 +1880,9 @@ func (m *Monitors) afterGC(h *H, repo string) {
 		}
 	}
 	for d, was := range post.manifest {
+		if was && !again.manifest[d] && rootedAfter != nil && !rootedAfter[d] {
+			continue
+		}
 		if was != again.manifest[d] {
 			m.flag(h, "C06.second-pass-changes", fmt.Sprintf("manifest %s: present=%v after one collection, %v after a second", h.tk.tokDigest(d), was, again.manifest[d]))
 			break
